@@ -528,7 +528,11 @@ func (cfg *Config) varInd(vr Variable, idx syntax.ArithmExpr) (string, bool, err
 			}
 			return strings.Join(strs, " "), vr.IsSet(), nil
 		}
-		val, err := Literal(cfg, idx.(*syntax.Word))
+		word, ok := idx.(*syntax.Word)
+		if !ok {
+			return "", false, fmt.Errorf("unsupported associative array subscript")
+		}
+		val, err := Literal(cfg, word)
 		if err != nil {
 			return "", false, err
 		}
@@ -561,8 +565,12 @@ func (cfg *Config) assignElem(name string, vr Variable, idx syntax.ArithmExpr, v
 	case Associative:
 		key := "0"
 		if idx != nil {
+			word, ok := idx.(*syntax.Word)
+			if !ok {
+				return fmt.Errorf("unsupported associative array subscript")
+			}
 			var err error
-			if key, err = Literal(cfg, idx.(*syntax.Word)); err != nil {
+			if key, err = Literal(cfg, word); err != nil {
 				return err
 			}
 		}
